@@ -306,8 +306,21 @@ POLYS = {
     'T': [(0, 0), (3, 0), (3, 1), (2, 1), (2, 2), (1, 2), (1, 1), (0, 1)],
     'plus': [(1, 0), (2, 0), (2, 1), (3, 1), (3, 2), (2, 2), (2, 3), (1, 3), (1, 2), (0, 2), (0, 1), (1, 1)],
 }
-POLY_AREA = {'rect': 2, 'L': 3, 'T': 4, 'plus': 5}
-POLY_NRECT = {'rect': 1, 'L': 2, 'T': 2, 'plus': 3}
+# Z and S: a trunk column whose first row has a branch on one side only and whose last row has one on the other side
+POLYS['Z'] = [(1, 0), (3, 0), (3, 1), (2, 1), (2, 3), (0, 3), (0, 2), (1, 2)]
+POLYS['S'] = [(0, 0), (2, 0), (2, 2), (3, 2), (3, 3), (1, 3), (1, 1), (0, 1)]
+POLY_AREA = {'rect': 2, 'L': 3, 'T': 4, 'plus': 5, 'Z': 5, 'S': 5}
+POLY_NRECT = {'rect': 1, 'L': 2, 'T': 2, 'plus': 3, 'Z': 3, 'S': 3}
+
+
+def _inside_poly(pts, x, y):
+    """point-in-polygon (even-odd rule) for a point that is not on the boundary"""
+    n, c = len(pts), False
+    for i in range(n):
+        (x1, y1), (x2, y2) = pts[i], pts[(i + 1) % n]
+        if (y1 > y) != (y2 > y) and x < x1 + (y - y1) * (x2 - x1) / (y2 - y1):
+            c = not c
+    return c
 
 
 def floorset_instance(case):
@@ -381,6 +394,14 @@ def check_floorset(case, res):
         ra = sum(r.area for r in m.rectangles)
         if abs(ra - POLY_AREA[pn] * step * step) > 1e-9 * step * step or m.num_rectangles != POLY_NRECT[pn]:
             res.violation('says-different', case, dict(attrs, what='shape'), POLY_AREA[pn] * step * step, ra)
+        # the rectangles lie inside the polygon (unit cells of the block's own grid: centre of every covered cell inside it)
+        pts = [((x + 4 * i + 0.5) * step, (y + 0.5) * step) for (x, y) in POLYS[pn]]
+        for r in m.rectangles:
+            x0, y0 = r.center.x - r.shape.w / 2, r.center.y - r.shape.h / 2
+            nx_, ny_ = round(r.shape.w / step), round(r.shape.h / step)
+            if abs(nx_ * step - r.shape.w) > 1e-9 * step or abs(ny_ * step - r.shape.h) > 1e-9 * step or \
+                    not all(_inside_poly(pts, x0 + (a + 0.5) * step, y0 + (b + 0.5) * step) for a in range(nx_) for b in range(ny_)):
+                res.violation('says-different', case, dict(attrs, what='shape-outside-polygon'), pn, repr(r))
         if m.is_soft and abs(m.area() - POLY_AREA[pn] * step * step) > 1e-9:
             res.violation('says-different', case, dict(attrs, what='area'), POLY_AREA[pn] * step * step, m.area())
     pins = case['pins']
@@ -665,7 +686,7 @@ def floorset_cases(tier):
     pinsets = [[(0, 0), (12, 4)], [(0, 2), (12, 0), (6, 4)], [(12, 4)]]
     for nb in (1, 2, 3):
         for pcomb in itertools.product(polys, repeat=nb):
-            if tier == 'quick' and nb == 3 and pcomb not in (('rect', 'L', 'T'), ('plus', 'rect', 'L'), ('T', 'plus', 'plus')):
+            if tier == 'quick' and nb == 3 and pcomb not in (('rect', 'L', 'T'), ('plus', 'rect', 'L'), ('T', 'plus', 'plus'), ('Z', 'S', 'L')):
                 continue
             if tier == 'quick' and nb == 2 and polys.index(pcomb[0]) > polys.index(pcomb[1]):
                 continue
